@@ -119,11 +119,18 @@ func (e *env) timeCall(objs []*timedObj, phase string) {
 			judge("verify-func", d.v, err == nil, err)
 		}
 		vInstalledC := vrun{vtServer, htRecv, cc.P.E, pinNone, nil}
-		err := o.tc.VerifyPeerCertificate(cc.Raw, nil)
+		callInstalled := func(cfg *tls.Config, what string) error {
+			if cfg.VerifyPeerCertificate == nil { // nothing installed = nothing refused
+				e.im.Violate("no VerifyPeerCertificate is installed in the "+what, "verifier-not-installed:"+what, cc.Label)
+				return nil
+			}
+			return cfg.VerifyPeerCertificate(cc.Raw, nil)
+		}
+		err := callInstalled(o.tc, "config returned by GetClientTLSConfig (receptor-name mode)")
 		terms = append(terms, fmt.Sprintf("(vr %s %d)", vInstalledC.coqCfg(), classify(err)))
 		judge("installed-client-verifier", vInstalledC, err == nil, err)
 		vInstalledS := vrun{vtClient, htDNS, "", pinNone, nil}
-		err = o.sc.VerifyPeerCertificate(cc.Raw, nil)
+		err = callInstalled(o.sc, "config returned by PrepareTLSServerConfig (requireclientcert)")
 		terms = append(terms, fmt.Sprintf("(vr %s %d)", vInstalledS.coqCfg(), classify(err)))
 		judge("installed-server-verifier", vInstalledS, err == nil, err)
 		e.cf.Add(fmt.Sprintf("TVerify %d %s %s", now, cc.coqFacts(), CoqList(terms)), "time of call, verify-func "+label)
